@@ -23,7 +23,7 @@ DELTAS_US = [0, 0, 0, 0, 0, 1, 1, 2, 999, 1000, 999999, 1000000, 1000001, 600000
 SUB_US_NS = [0, 0, 0, 0, 1, 10, 100, 990, 999, 900]   # increments below one microsecond (ns)
 WORDS = ["alpha", "beta", "gamma", "delta", "kernel", "daemon", "started", "stopped", "link", "up",
          "down", "session", "opened", "closed", "for", "user", "root", "error", "warning", "ok"]
-TOKEN = re.compile(rb"\bs(\d\d)m(\d{4})\b|\but_pid (\d{6})\b")
+TOKEN = re.compile(rb"\bs(\d{2,})m(\d{4})\b|\but_pid (\d{6})\b")
 UTMP_PID0 = 100000
 
 
@@ -518,6 +518,10 @@ def replay_failures(prop, path, repeats=1):
     for f in r.get("failures", []):
         c = f["case"]
         plans = c.get("plans") or [c.get("plan")]
+        if c.get("whole_invocation"):
+            if prog_replay_one(c):
+                bad += 1
+            continue
         if c.get("fixture"):
             # instants are read back from the output: the order must be the k-way merge of them,
             # and identical for every plan
@@ -650,3 +654,322 @@ def corpus_inputs(prop):
             srcs.append(dict(sid=argpos, msgs=msgs, kind=kind, container="plain", name="c%02d.log" % (n - 1 - argpos)))
         out.append(dict(sources=srcs, opts=list(c["opts"]), window=None, as_dir=False, corpus=c["name"]))
     return out
+
+
+# ----------------------------------------------------------------------------- whole invocations (work package H)
+# Random WHOLE invocations of the real binary — 1..5 text files (plain and .gz) with cross-file
+# ties and multi-line messages, files with and without a final newline, a window on / around the
+# instants present, decoration options, --blocksz, --summary — compared with
+#   C: Program.program_spec (Coq, vm_compute; Corr/C01p.spec_bad) and an independent python rendering,
+#   B: Program.program_m at that block size under the schedule recorded by hook H1 (Corr/C01p.model_bad).
+PROG_FORMATS = [None, None, None, "%Y%m%dT%H%M%S%.3f%z", "%s%.9f", "%Y-%m-%d %H:%M:%S%.6f %:z", "%s.%f", "%F %T", "%H:%M:%S%.3f"]
+PROG_ZONES = [None, None, ("-u", 0, None), ("-u", 0, None), ("-z", 19800, "+05:30"), ("-z", -12600, "-03:30"),
+              ("-z", 3600, "+01:00"), ("-l", 20700, "Asia/Kathmandu")]
+PROG_PSEPS = [":", ":", ":", " | ", "", "@@", "\t"]
+PROG_SEPS = [("", b""), ("", b""), ("", b""), ("|", b"|"), ("\\n", b"\n"), ("--\\n", b"--\n"), ("<sep>", b"<sep>"),
+             ("\\t\\0", b"\t\0"), ("\\\\", b"\\")]
+PROG_BS = [None, None, 64, 64, 65, 100, 128, 127, 500, 4096]
+PROG_DEFAULT_FMT = "%Y%m%dT%H%M%S%.3f%z"
+
+
+def prog_strftime(fmt, t_ns, off_s):
+    """the chrono specifiers used by PROG_FORMATS, with python datetime"""
+    secs, nano = divmod(t_ns, 10 ** 9)
+    dt = datetime.datetime(1970, 1, 1) + datetime.timedelta(seconds=secs + off_s)
+    sign = "-" if off_s < 0 else "+"
+    a = abs(off_s) // 60
+    out, i = [], 0
+    while i < len(fmt):
+        if fmt[i] != "%":
+            out.append(fmt[i]); i += 1; continue
+        nx = fmt[i + 1:i + 4]
+        if nx[:1] in "YmdHMS":
+            out.append({"Y": "%04d" % dt.year, "m": "%02d" % dt.month, "d": "%02d" % dt.day, "H": "%02d" % dt.hour,
+                        "M": "%02d" % dt.minute, "S": "%02d" % dt.second}[nx[0]]); i += 2
+        elif nx[:1] == "f":
+            out.append("%09d" % nano); i += 2
+        elif nx[:1] == "z":
+            out.append("%s%02d%02d" % (sign, a // 60, a % 60)); i += 2
+        elif nx[:2] == ":z":
+            out.append("%s%02d:%02d" % (sign, a // 60, a % 60)); i += 3
+        elif nx[:1] == "s":
+            out.append(str(secs)); i += 2
+        elif nx[:1] == "T":
+            out.append("%02d:%02d:%02d" % (dt.hour, dt.minute, dt.second)); i += 2
+        elif nx[:1] == "F":
+            out.append("%04d-%02d-%02d" % (dt.year, dt.month, dt.day)); i += 2
+        elif nx[:1] == "." and nx[1:2] in "369" and nx[2:3] == "f":
+            out.append("." + ("%09d" % nano)[:int(nx[1])]); i += 4
+        else:
+            raise ValueError("unsupported specifier in %r" % fmt)
+    return "".join(out)
+
+
+def prog_input(rng, idx, scratch):
+    """one whole invocation: sources (gen_input, chronological text only), containers plain/gz,
+    some files without final newline, options, window, block size"""
+    ns = rng.choice([1, 2, 2, 3, 3, 4, 5])
+    inp = gen_input(rng, ns, rng.choice([3, 6, 12, 20]), allow_unsorted=False, allow_window=False, allow_container=False,
+                    allow_dir=False, opts_choices=[[]], allow_junk=False, allow_utmp=False)
+    for s in inp["sources"]:
+        if rng.random() < 0.3:
+            s["container"] = "gz"
+            s["name"] = s["name"][:-4] + ".log.gz" if s["name"].endswith(".log") else s["name"] + ".gz"
+        s["final_nl"] = rng.random() < 0.55
+        for m in s["msgs"]:
+            m["cont"] = 0 if rng.random() < 0.7 else rng.randrange(1, 4)
+    # cross-file ties: half of the later sources take their instants from the first source's
+    if len(inp["sources"]) > 1:
+        pool = [m["inst"] for m in inp["sources"][0]["msgs"]]
+        for s in inp["sources"][1:]:
+            if rng.random() < 0.5:
+                gran = 10 ** (9 - s["msgs"][0].get("frac", 6))
+                new = sorted((rng.choice(pool) // gran) * gran for _ in s["msgs"])
+                for m, t in zip(s["msgs"], new):
+                    m["inst"] = t
+    # names of different lengths (alignment): prefix some
+    for k, s in enumerate(inp["sources"]):
+        if rng.random() < 0.4:
+            s["name"] = rng.choice(["x", "host-", "a-long-name-"]) + s["name"]
+    d = os.path.join(scratch, "prog%04d" % idx)
+    os.makedirs(d, exist_ok=True)
+    for s in inp["sources"]:
+        lines = []
+        for pos, m in enumerate(s["msgs"]):
+            w = WORDS[(idx + s["sid"] * 7 + pos * 3) % len(WORDS)]
+            first = "%s s%02dm%04d %s" % (render_ts(m["inst"], m["off"], m.get("frac", 6)), s["sid"], pos, w)
+            m["lines"] = [first] + ["    continued %s %s" % (WORDS[(pos + c) % len(WORDS)], "x" * (1 + c)) for c in range(m["cont"])]
+            lines += m["lines"]
+        data = "\n".join(lines).encode() + (b"\n" if s["final_nl"] else b"")
+        s["data"] = data
+        p = os.path.join(d, s["name"])
+        if s["container"] == "gz":
+            with gzip.GzipFile(p, "wb", mtime=0) as f:
+                f.write(data)
+        else:
+            with open(p, "wb") as f:
+                f.write(data)
+    inp["dir"] = d
+    # window on / around the instants present (microsecond granularity of the -a/-b text)
+    allinst = sorted(set(m["inst"] for s in inp["sources"] for m in s["msgs"]))
+    lo = hi = None
+    r = rng.random()
+    if r < 0.55:
+        def bound():
+            t = rng.choice(allinst)
+            us = t // 1000 + rng.choice([0, 0, 0, 1, -1, 1000, -1000])
+            return us * 1000
+        if rng.random() < 0.7:
+            lo = bound()
+        if lo is None or rng.random() < 0.6:
+            hi = bound()
+        if lo is not None and hi is not None and hi < lo:
+            lo, hi = hi, lo                 # s4 refuses -a later than -b; empty selections arise between instants
+    inp["lo"], inp["hi"] = lo, hi
+    inp["fmode"] = rng.choice([None, "-n", "-n", "-p"])
+    inp["align"] = inp["fmode"] is not None and rng.random() < 0.5
+    inp["zone"] = rng.choice(PROG_ZONES)
+    inp["fmt"] = rng.choice(PROG_FORMATS)
+    inp["psep"] = rng.choice(PROG_PSEPS)
+    inp["sep"] = rng.choice(PROG_SEPS)
+    inp["bs"] = rng.choice(PROG_BS)
+    inp["summary"] = rng.random() < 0.7
+    return inp
+
+
+def prog_env(inp):
+    env = {"TZ": "UTC"}
+    if inp["zone"] and inp["zone"][0] == "-l":
+        env["TZ"] = inp["zone"][2]
+    return env
+
+
+def prog_argv(inp, d=None):
+    d = d or inp["dir"]
+    a = ["--color", "never"]
+    if inp["fmode"]:
+        a.append(inp["fmode"])
+    if inp["align"]:
+        a.append("-w")
+    if inp["zone"]:
+        z = inp["zone"]
+        a += [z[0]] if z[0] != "-z" else ["--prepend-tz=" + z[2]]
+    if inp["fmt"] is not None:
+        a += ["-d", inp["fmt"]]
+    if inp["psep"] != ":":
+        a.append("--prepend-separator=" + inp["psep"])
+    if inp["sep"][0]:
+        a.append("--separator=" + inp["sep"][0])
+    if inp["bs"]:
+        a += ["--blocksz", str(inp["bs"])]
+    if inp["lo"] is not None:
+        a += ["-a", render_ts(inp["lo"], 0)]
+    if inp["hi"] is not None:
+        a += ["-b", render_ts(inp["hi"], 0)]
+    if inp["summary"]:
+        a.append("--summary")
+    return a + [os.path.join(d, s["name"]) for s in inp["sources"]]
+
+
+def prog_date(inp):
+    """(on, format, offset seconds) — prepend_dt_format after cli_process_args"""
+    fmt = inp["fmt"]
+    off = 0
+    if inp["zone"]:
+        off = inp["zone"][1]
+        if fmt is None:
+            fmt = PROG_DEFAULT_FMT
+    if fmt is None:
+        return False, None, 0
+    return True, fmt, off
+
+
+def prog_in_window(inp, t):
+    return (inp["lo"] is None or inp["lo"] <= t) and (inp["hi"] is None or t <= inp["hi"])
+
+
+def prog_names(inp, d=None):
+    d = d or inp["dir"]
+    if inp["fmode"] == "-n":
+        return [s["name"] for s in inp["sources"]]
+    if inp["fmode"] == "-p":
+        return [os.path.join(d, s["name"]) for s in inp["sources"]]
+    return ["" for s in inp["sources"]]
+
+
+def prog_expected(inp, d=None):
+    """independent python rendering: (stdout bytes, summary numbers, print order [(src, pos)])"""
+    vis = [[(pos, m) for pos, m in enumerate(s["msgs"]) if prog_in_window(inp, m["inst"])] for s in inp["sources"]]
+    order = kway_merge([[m["inst"] for _, m in v] for v in vis])
+    names = prog_names(inp, d)
+    printed = set(i for i, _ in order)
+    width = max([len(names[i]) for i in printed] or [0]) if inp["align"] else 0
+    on, fmt, off = prog_date(inp)
+    psep = inp["psep"]
+    out = bytearray()
+    nlines = 0
+    insts = []
+    for (i, k) in order:
+        s = inp["sources"][i]
+        pos, m = vis[i][k]
+        pre = ""
+        if inp["fmode"]:
+            pre += names[i].ljust(width) + psep
+        if on:
+            pre += prog_strftime(fmt, m["inst"], off) + psep
+        last_of_file = pos == len(s["msgs"]) - 1
+        for j, ln in enumerate(m["lines"]):
+            lastline = last_of_file and j == len(m["lines"]) - 1
+            out += pre.encode() + ln.encode() + (b"" if (lastline and not s["final_nl"]) else b"\n")
+            nlines += 1
+        out += inp["sep"][1]
+        if last_of_file and not s["final_nl"]:
+            out += b"\n"
+        insts.append(m["inst"])
+    nums = [len(out), nlines, len(order), (min(insts) // 10**9 if insts else -1), (max(insts) // 10**9 if insts else -1)]
+    return bytes(out), nums, order
+
+
+def prog_summary_nums(stderr):
+    import s4summary
+    p = s4summary.parse(stderr)["program"]
+    f, l = p.get("printed_first"), p.get("printed_last")
+    return [p.get("printed_bytes", -7), p.get("printed_lines", -7), p.get("printed_syslines", -7),
+            f.epoch if f else -1, l.epoch if l else -1]
+
+
+def hexchunks(b, n=2048):
+    h = b.hex()
+    return "[" + "; ".join('"%s"' % h[i:i + 2 * n] for i in range(0, len(h), 2 * n)) + "]" if h else "[]"
+
+
+def coq_optz(x):
+    return "None" if x is None else "(Some (%d)%%Z)" % x
+
+
+def prog_coq_case(inp, stdout, nums):
+    """Corr/C01p.spec_case"""
+    on, fmt, off = prog_date(inp)
+    names = prog_names(inp)
+    o = "(%s, %s, \"%s\", %s, \"%s\", (%d)%%Z, \"%s\", %s, %s, %s)" % (
+        "true" if inp["fmode"] else "false", "true" if inp["align"] else "false", inp["psep"].encode().hex(),
+        "true" if on else "false", (fmt or "").encode().hex(), off, inp["sep"][1].hex(),
+        "true" if inp["summary"] else "false", coq_optz(inp["lo"]), coq_optz(inp["hi"]))
+    fs = []
+    tab = {}
+    for i, s in enumerate(inp["sources"]):
+        nb = names[i].encode()
+        fs.append("(\"%s\", %d, %d, %s, %s)" % (nb.hex(), len(names[i]), len(names[i]),
+                                                "true" if s["container"] == "gz" else "false", hexchunks(s["data"])))
+        for pos, m in enumerate(s["msgs"]):
+            ln = m["lines"][0].encode()
+            whole = pos == len(s["msgs"]) - 1 and len(m["lines"]) == 1 and not s["final_nl"]
+            tab[ln if whole else ln + b"\n"] = m["inst"]
+    tabs = "[" + "; ".join("(\"%s\", (%d)%%Z)" % (k.hex(), v) for k, v in tab.items()) + "]"
+    return "(%s, [%s], %s, %d, %s, [%s])" % (o, "; ".join(fs), tabs, inp["bs"] or 65536, hexchunks(stdout),
+                                            "; ".join("(%d)%%Z" % x for x in (nums or [])))
+
+
+def prog_eval(workdir, fn, cases, case_type, nshards=None):
+    """cases: list of Corr/C01p case strings -> (ok, {index: code}, log)"""
+    if not cases:
+        return True, {}, ""
+    idx = list(range(len(cases)))
+    shards = vlib.shard(idx, nshards or vlib.NCPU)
+    hdr = (vlib.COQ_PRINT_HDR + "From Coq Require Import String List ZArith NArith.\nImport ListNotations.\n"
+           "From S4.Corr Require Import C01p.\nOpen Scope N_scope.\nOpen Scope string_scope.\n")
+    texts = [hdr + "Definition cases : list %s := [\n%s\n].\nEval vm_compute in (%s cases).\n" % (
+        case_type, ";\n".join(cases[i] for i in sh), fn) for sh in shards]
+    res = vlib.coq_eval_shards(workdir, texts)
+    bad = {}
+    for sh, (rc, out) in zip(shards, res):
+        pr = vlib.parse_eval_pairs(out) if rc == 0 else None
+        if pr is None:
+            return False, bad, out
+        for k, c in pr:
+            bad[sh[k]] = c
+    return True, bad, ""
+
+
+def prog_describe(inp):
+    return dict(argv=prog_argv(inp), env=prog_env(inp),
+                window_ns=[inp["lo"], inp["hi"]], blocksz=inp["bs"] or 65536,
+                sources=[dict(name=s["name"], container=s["container"], messages=len(s["msgs"]), final_newline=s["final_nl"],
+                              in_window=sum(1 for m in s["msgs"] if prog_in_window(inp, m["inst"])),
+                              multi_line=sum(1 for m in s["msgs"] if m["cont"])) for s in inp["sources"]])
+
+
+def prog_save_failure(prop, seed, inp, plan, n, extra=None):
+    """input files + expected stdout / summary numbers under replays/<prop>-inputs/<seed>-p<n>"""
+    import json, shutil
+    dest = os.path.join(vlib.ROOT, "replays", "%s-inputs" % prop, "%d-p%d" % (seed, n))
+    if os.path.isdir(dest):
+        shutil.rmtree(dest)
+    os.makedirs(dest)
+    ind = os.path.join(dest, "in")
+    shutil.copytree(inp["dir"], ind)
+    exp, nums, _ = prog_expected(inp, ind)
+    with open(os.path.join(dest, "EXPECTED_STDOUT"), "wb") as f:
+        f.write(exp)
+    c = dict(dir=dest, argv=prog_argv(inp, ind), plan=plan, env=prog_env(inp), describe=prog_describe(inp),
+             expect_summary=(nums if inp["summary"] else None), whole_invocation=True)
+    if extra:
+        c.update(extra)
+    return c
+
+
+def prog_replay_one(c):
+    """re-run a saved whole-invocation failure; True when it still fails"""
+    env = dict(c.get("env") or {"TZ": "UTC"})
+    if c.get("plan"):
+        env["S4_VERIF_PLAN"] = c["plan"]
+    rc, out, err = vlib.run_s4(c["argv"], timeout=60, env=env)
+    expb = open(os.path.join(c["dir"], "EXPECTED_STDOUT"), "rb").read()
+    same = rc == 0 and out == expb
+    what = "stdout %s expected (%d vs %d bytes)" % ("==" if same else "!=", len(out), len(expb))
+    if same and c.get("expect_summary"):
+        got = prog_summary_nums(err)
+        same = got == c["expect_summary"]
+        what += "; summary [bytes, lines, syslines, first, last] %s expected (%r vs %r)" % ("==" if same else "!=", got, c["expect_summary"])
+    print("replay whole invocation rc=%d %s  argv=%s" % (rc, what, " ".join(c["argv"])))
+    return not same
